@@ -366,7 +366,7 @@ def r02_5_leap_decisions(ctx: Ctx) -> RuleResult:
     rr = RuleResult("R02.5", "every leap/common selection in the calendar calculators is decided by a leap-year predicate, never by inline arithmetic on the year", min_instances=6)
     pat = re.compile(r"LEAP|\b36[56]\b|\b35[45]\b")
     for f in sorted(set(ctx.M.func_of_node.values()), key=lambda x: x.qual):
-        if "/calendars/" not in f.mod.rel or isinstance(f.node, ast.Lambda) or "is_leap" in f.name:
+        if "/calendars/" not in f.mod.rel or isinstance(f.node, ast.Lambda) or re.search(r"is_\w*leap", f.name) is not None:
             continue
         from ..kit import inline_locals
 
@@ -377,15 +377,43 @@ def r02_5_leap_decisions(ctx: Ctx) -> RuleResult:
             if not pat.search(" ".join(unparse(a) for a in arms)):
                 continue
             test = inline_locals(f.node, n.test)
-            has_pred = any(isinstance(c, ast.Call) and "is_leap" in unparse(c.func) for c in ast.walk(test))
-            arith = [b for b in ast.walk(test) if isinstance(b, ast.BinOp) and isinstance(b.op, (ast.Mod, ast.BitAnd)) and any(isinstance(x, ast.Name) and "year" in x.id for x in ast.walk(b))]
+            # locals that are assigned more than once (e.g. `is_leap`, recomputed after the year is bumped) are not inlined:
+            # look at every value they are given
+            exprs: list[ast.AST] = [test]
+            for nm in {x.id for x in ast.walk(test) if isinstance(x, ast.Name)}:
+                for a in own_nodes(f.node):
+                    if isinstance(a, (ast.Assign, ast.AnnAssign)) and getattr(a, "value", None) is not None:
+                        tg = a.targets if isinstance(a, ast.Assign) else [a.target]
+                        if any(isinstance(t, ast.Name) and t.id == nm for t in tg):
+                            exprs.append(a.value)
+            has_pred = all(any(isinstance(c, ast.Call) and re.search(r"is_\w*leap", unparse(c.func)) is not None for c in ast.walk(e)) for e in exprs if not isinstance(e, ast.Name)) and any(
+                isinstance(c, ast.Call) and re.search(r"is_\w*leap", unparse(c.func)) is not None for e in exprs for c in ast.walk(e))
+            arith = [b for e in exprs for b in ast.walk(e) if isinstance(b, ast.BinOp) and isinstance(b.op, (ast.Mod, ast.BitAnd)) and any(isinstance(x, ast.Name) and "year" in x.id for x in ast.walk(b))]
             if not has_pred and not arith:
                 continue  # not a leap decision (range / era / month tests)
             rr.inst()
-            if arith and not has_pred:
-                rr.fail(f.qual, f"chooses between leap and common alternatives on `{unparse(n.test)[:70]}`: an inline test on the year instead of the calculator's leap predicate", ctx.loc(f, n))
+            if arith:
+                rr.fail(f.qual, f"chooses between leap and common alternatives on `{unparse(n.test)[:70]}`, which is (also) computed by inline arithmetic on the year (`{unparse(arith[0])[:40]}`) instead of the calculator's leap predicate", ctx.loc(f, n))
             else:
                 rr.ok({"fn": f.qual, "test": unparse(n.test)[:70]})
+    # second clause, whole package: the 4 / 400-year arithmetic of leap rules appears only inside the leap predicates themselves
+    for f in sorted(set(ctx.M.func_of_node.values()), key=lambda x: x.qual):
+        if isinstance(f.node, ast.Lambda) or "_compatibility" in f.mod.rel:
+            continue
+        for b in own_nodes(f.node):
+            hit = None
+            if isinstance(b, ast.BinOp) and isinstance(b.op, (ast.Mod, ast.BitAnd)) and isinstance(b.right, ast.Constant) and b.right.value in ((3,) if isinstance(b.op, ast.BitAnd) else (4, 400)):
+                if any("year" in (x.id if isinstance(x, ast.Name) else x.attr).lower() for x in ast.walk(b.left) if isinstance(x, (ast.Name, ast.Attribute))):
+                    hit = b
+            elif isinstance(b, ast.Call) and unparse(b.func).endswith("_csharp_modulo") and len(b.args) == 2 and isinstance(b.args[1], ast.Constant) and b.args[1].value in (4, 400) and "year" in unparse(b.args[0]).lower():
+                hit = b
+            if hit is None:
+                continue
+            rr.inst()
+            if re.search(r"is_\w*leap", f.name) is not None:
+                rr.ok({"predicate": f.qual, "term": unparse(hit)})
+            else:
+                rr.fail(f.qual, f"`{unparse(hit)}`: leap-year arithmetic outside a leap predicate - a private approximation of the rule (every 4th year) disagrees with the calendar in century years", ctx.loc(f, hit))
     return rr
 
 
@@ -520,3 +548,10 @@ def r02_7_hebrew_molad(ctx: Ctx) -> RuleResult:
     else:
         rr.fail(f.qual, f"year {bad[0]}: the code places 1 Tishri on day {bad[1]}, the published molad arithmetic on day {_hebrew_elapsed_days_spec(bad[0])}", ctx.loc(f))
     return rr
+
+
+# shared with C01: the two directions of the within-year conversion (day-of-year -> month/day and month -> first day) of every
+# calculator and year kind, Hebrew included (home ids R01.5 / R01.5b)
+from .c01 import r01_5_per_year_consistency as _r01_5  # noqa: E402
+
+rule("C02")(_r01_5)
